@@ -1875,6 +1875,21 @@ def c04_programs(tier, sd):
                         ["set", ["top", "items", 0, "x"], 200], ["set", ["top", "items", 1, "x"], 201], ["randomize", ["top"]], ["list_set_obj", ["top", "items"], 1],
                         ["set", ["top", "items", 1, "x"], 222], ["randomize", ["top"]], ["list_clear", ["top", "items"]], ["randomize", ["top"]], ["list_append", ["top", "items"], 0],
                         ["randomize_with", ["top"], [E(["<", F("a"), lit(9)])]]]})
+    # non-random signed list elements in a condition folded per iteration; if/else over a non-random condition with a foreach in
+    # both branches
+    lfc = [["cfg", "list", ["s", 8], 3, False, False], ["l", "list", ["u", 8], 3, True, False], ["m", "list", ["u", 8], 2, True, False], fld("n", ("u", 8), False)]
+    for op_, kv in (("<", 0), (">=", 0), ("==", -1), ("<", -100)):
+        st = [["foreach", ["l"], "i", [["if", [[[op_, F("cfg", ["idx", "i"]), lit(kv)], [E(["==", ["it", "i"], lit(1)])]]], [E(["==", ["it", "i"], lit(2)])]]]]]
+        out.append({"tag": "fixedsz:signed_cfg", "desc": "foreach condition on a signed non-random list element %s %d" % (op_, kv), "prog": one_class(lfc, st), "world": [["top", "obj", "Top"]],
+                    "ops": [["set", ["top", "cfg", 0], -1], ["set", ["top", "cfg", 1], 1], ["set", ["top", "cfg", 2], -128], ["randomize", ["top"]], ["set", ["top", "cfg", 1], -101],
+                            ["randomize", ["top"]]]})
+    for els in (True, False):
+        st = [["if", [[["==", F("n"), lit(1)], [["foreach", ["l"], "i", [E(["<", ["it", "i"], lit(5)])]]]]],
+               [["foreach", ["m"], "i", [E([">", ["it", "i"], lit(200)])]]] if els else None], E(["!=", F("l", 0), F("m", 0)])]
+        out.append({"tag": "fixedsz:foreach_in_branches", "desc": "if/else over a non-random condition with foreach in the branches (else=%s)" % els, "prog": one_class(lfc, st),
+                    "world": [["top", "obj", "Top"]],
+                    "ops": [["set", ["top", "n"], 1], ["randomize", ["top"]], ["set", ["top", "n"], 0], ["randomize", ["top"]], ["randomize", ["top"]], ["set", ["top", "n"], 1],
+                            ["list_append", ["top", "l"], 0], ["randomize", ["top"]]]})
     # seeded random structured programs over a random-size list
     out += random_struct_programs(rnd, 30 if tier == "quick" else 2000, randsz=True)
     # fixed-size lists with list operations between calls
